@@ -109,8 +109,13 @@ def isEntry : L → Bool
 def proto (C : Nat) : Proto :=
   { L := L, op := op C, cont := cont C, entry := fun l l' => idleOrDone l && isEntry l' }
 
-def binding (C : Nat) : Trace.Binding (proto C) :=
-  { fieldOf := fun s => if s = "top" then some 0 else if s = "bottom" then some 1 else none
+def binding (C : Nat) (slotBytes : Nat := 4) : Trace.Binding (proto C) :=
+  { fieldOf := fun s => if s = "top" then some 0 else if s = "bottom" then some 1 else
+      -- "slot" / "slot+<byte offset>": the harness tells the element size through `slotBytes`
+      if s = "slot" then some 2 else
+      match s.splitOn "+" with
+      | ["slot", off] => (off.toNat?).map fun o => 2 + o / slotBytes
+      | _ => none
     bits := fun _ => 64
     mkCall := fun name args _ =>
       match name, args with
@@ -124,7 +129,22 @@ def binding (C : Nat) : Trace.Binding (proto C) :=
     retOf := fun l => match l with
       | .done r => some r
       | _ => none
-    silentFld := fun f => decide (2 ≤ f) }
+    -- slot accesses are plain memory; the harness registers the storage as a plain region, so every
+    -- slot read/write is a trace event (values are not recorded)
+    opaqueFld := fun f => decide (2 ≤ f)
+    -- the declared orders of chase_lev_deque.h (call-site specific)
+    reqOrder := fun l => match l with
+      | .pLoadT _ _ => 2      -- top_.load(acquire) in try_push
+      | .pPub _ => 3          -- bottom_.store(release) publishes the slot
+      | .oFence _ _ => 5      -- seq_cst fence between the bottom store and the top load
+      | .oCas _ _ _ => 5      -- seq_cst CAS on top (last element)
+      | .sLoadT => 2
+      | .sFence _ => 5
+      | .sLoadB _ => 2
+      | .sCas _ _ => 5
+      | .qLoadB _ => 2
+      | .qLoadT _ _ => 2
+      | _ => 0 }
 
 def init (C : Nat) : State (proto C) := initState (proto C) L.idle (fun _ => 0)
 
